@@ -329,10 +329,36 @@ Section WF.
     destruct (validate_raise (NSub false vs fs') (path_index p pos) (VCfg it1)); inversion H; subst. exact Hit.
   Qed.
 
+  (* ---- configuration objects handed over as they are (CSetObj / CAppendObj / CSetIdxObj / CInsertObj): the code stores
+     them without looking at the schema they were built from, so well-formedness of the receiving configuration can
+     only be kept if the object is itself well-formed for the fields of the slot it goes to.  `obj_ok` states exactly
+     that, statically, from the schema, the path and the operation (every other operation: no condition).
+     `resolve_obj_ok` below shows the condition is met by every object this model builds from the slot's own schema. *)
+  Definition obj_ok_at (fs : list (str * node F)) (o : cop) : Prop :=
+    match o with
+    | CSetObj k src => match fget F k fs with Some (NSub _ _ fs') => wf_cfg fs' src | _ => True end
+    | CAppendObj k src | CSetIdxObj k _ src | CInsertObj k _ src =>
+        match fget F k fs with Some (NCfgList _ _ fs') => wf_cfg fs' src | _ => True end
+    | _ => True
+    end.
+  (* the fields of the configuration a path addresses, read off the schema *)
+  Fixpoint fields_at (ps : list pstep) (fs : list (str * node F)) : option (list (str * node F)) :=
+    match ps with
+    | [] => Some fs
+    | PKey k :: r => match fget F k fs with Some (NSub _ _ fs') => fields_at r fs' | _ => None end
+    | PItem k _ :: r => match fget F k fs with Some (NCfgList _ _ fs') => fields_at r fs' | _ => None end
+    end.
+  Definition obj_ok (fs : list (str * node F)) (ps : list pstep) (o : cop) : Prop :=
+    match fields_at ps fs with Some fs1 => obj_ok_at fs1 o | None => True end.
+  Definition plain_op (o : cop) : bool :=
+    match o with CSetObj _ _ | CAppendObj _ _ | CSetIdxObj _ _ _ | CInsertObj _ _ _ => false | _ => true end.
+  Lemma plain_obj_ok : forall fs ps o, plain_op o = true -> obj_ok fs ps o.
+  Proof. intros fs ps o H. unfold obj_ok. destruct (fields_at ps fs); [|exact I]. destruct o; try discriminate; exact I. Qed.
+
   Lemma apply_cop_wf : forall o w pre c dyn vs fs w' c' oc1,
-    ok_fields fs -> wf_cfg fs c -> apply_cop w pre c dyn vs fs o = (w', c', oc1) -> wf_cfg fs c'.
+    ok_fields fs -> wf_cfg fs c -> obj_ok_at fs o -> apply_cop w pre c dyn vs fs o = (w', c', oc1) -> wf_cfg fs c'.
   Proof.
-    intros o w pre c dyn vs fs w' c' oc1 Hok Hw H. destruct o; cbn [Config.apply_cop] in H.
+    intros o w pre c dyn vs fs w' c' oc1 Hok Hw Hobj H. destruct o; cbn [Config.apply_cop] in H; cbn [obj_ok_at] in Hobj.
     - eapply set_value_wf; eauto.
     - unfold Config.load_tree in H. destruct t; try (inversion H; subst; exact Hw).
       destruct (load_keys d w pre c fs dyn) as [[w1 c1] o1] eqn:E.
@@ -382,20 +408,54 @@ Section WF.
       pose proof (wf_cfg_get _ _ _ _ Hw0 Eg) as Hl. unfold wf_slot in Hl. rewrite Ef in Hl. apply wf_val_list in Hl.
       unfold wf_items in *. apply Forall_app. split; [apply Forall_firstn'; exact Hl|].
       constructor; [eapply make_item_wf; eauto | apply Forall_skipn'; exact Hl].
+    - (* CSetObj *)
+      destruct (fget F k fs) as [[f|d1 v1 f1|req vs' fs']|] eqn:Ef.
+      + destruct (lvalidate f cfg_object); inversion H; subst; exact Hw.
+      + inversion H; subst. apply wf_store; [exact Hw|]. unfold wf_slot. rewrite Ef. cbn [wf_val]. exact Hobj.
+      + inversion H; subst. exact Hw.
+      + destruct dyn; inversion H; subst; exact Hw.
+    - (* CAppendObj *)
+      destruct (fget F k fs) as [[f|d1 v1 f1|req vs' fs']|] eqn:Ef; try (inversion H; subst; exact Hw).
+      destruct (dget k (c_data c)) as [[v|c0|l]|] eqn:Eg; try (inversion H; subst; exact Hw).
+      destruct (obj_item F lvalidate lflag vrun (path_join pre k) (N.of_nat (length l)) vs' fs' src); try (inversion H; subst; exact Hw).
+      destruct c as [i d df dy]. inversion H; subst.
+      apply wf_cfg_data. pose proof Hw as Hw0. apply wf_cfg_data in Hw. apply wf_data_dset; [exact Hw|]. unfold wf_slot. rewrite Ef.
+      apply wf_val_list. apply Forall_app. split.
+      * pose proof (wf_cfg_get _ _ _ _ Hw0 Eg) as Hl. unfold wf_slot in Hl. rewrite Ef in Hl. apply wf_val_list in Hl. exact Hl.
+      * constructor; [exact Hobj | constructor].
+    - (* CSetIdxObj *)
+      destruct (fget F k fs) as [[f|d1 v1 f1|req vs' fs']|] eqn:Ef; try (inversion H; subst; exact Hw).
+      destruct (dget k (c_data c)) as [[v|c0|l]|] eqn:Eg; try (inversion H; subst; exact Hw).
+      destruct (obj_item F lvalidate lflag vrun (path_join pre k) (N.of_nat (length l)) vs' fs' src); try (inversion H; subst; exact Hw).
+      destruct (i <? length l)%nat; [|inversion H; subst; exact Hw]. destruct c as [i0 d df dy]. inversion H; subst.
+      apply wf_cfg_data. pose proof Hw as Hw0. apply wf_cfg_data in Hw. apply wf_data_dset; [exact Hw|]. unfold wf_slot. rewrite Ef.
+      apply wf_val_list. apply wf_items_set_nth; [|exact Hobj].
+      pose proof (wf_cfg_get _ _ _ _ Hw0 Eg) as Hl. unfold wf_slot in Hl. rewrite Ef in Hl. apply wf_val_list in Hl. exact Hl.
+    - (* CInsertObj *)
+      destruct (fget F k fs) as [[f|d1 v1 f1|req vs' fs']|] eqn:Ef; try (inversion H; subst; exact Hw).
+      destruct (dget k (c_data c)) as [[v|c0|l]|] eqn:Eg; try (inversion H; subst; exact Hw).
+      destruct (obj_item F lvalidate lflag vrun (path_join pre k) (N.of_nat (length l)) vs' fs' src); try (inversion H; subst; exact Hw).
+      destruct c as [i0 d df dy]. inversion H; subst.
+      apply wf_cfg_data. pose proof Hw as Hw0. apply wf_cfg_data in Hw. apply wf_data_dset; [exact Hw|]. unfold wf_slot. rewrite Ef.
+      apply wf_val_list.
+      pose proof (wf_cfg_get _ _ _ _ Hw0 Eg) as Hl. unfold wf_slot in Hl. rewrite Ef in Hl. apply wf_val_list in Hl.
+      unfold wf_items in *. apply Forall_app. split; [apply Forall_firstn'; exact Hl|].
+      constructor; [exact Hobj | apply Forall_skipn'; exact Hl].
   Qed.
 
   (* C01, one step: whatever the operation, wherever it is addressed, accepted or rejected *)
   Theorem step_wf : forall ps o w pre c dyn vs fs w' c' oc1,
-    ok_fields fs -> wf_cfg fs c -> at_path ps w pre c dyn vs fs o = (w', c', oc1) -> wf_cfg fs c'.
+    ok_fields fs -> wf_cfg fs c -> obj_ok fs ps o -> at_path ps w pre c dyn vs fs o = (w', c', oc1) -> wf_cfg fs c'.
   Proof.
-    induction ps as [|[k|k i] ps IH]; intros o w pre c dyn vs fs w' c' oc1 Hok Hw H; cbn [Config.at_path] in H.
+    induction ps as [|[k|k i] ps IH]; intros o w pre c dyn vs fs w' c' oc1 Hok Hw Hobj H; cbn [Config.at_path] in H;
+      unfold obj_ok in Hobj; cbn [fields_at] in Hobj.
     - eapply apply_cop_wf; eauto.
     - destruct (fget F k fs) as [[f|dyn' vs' fs'|req vs' fs']|] eqn:Ef; try (inversion H; subst; exact Hw).
       destruct (dget k (c_data c)) as [[v|sub|l]|] eqn:Eg; try (inversion H; subst; exact Hw).
       destruct (at_path ps w (path_join pre k) sub dyn' vs' fs' o) as [[w1 sub'] o1] eqn:E.
       assert (Hok' : ok_fields fs') by (apply (ok_node_sub dyn' vs'); eapply ok_fields_get; eauto).
       pose proof (wf_cfg_get _ _ _ _ Hw Eg) as Hs. unfold wf_slot in Hs. rewrite Ef in Hs. cbn [wf_val] in Hs.
-      apply IH in E; auto. destruct c as [i0 d df dy]. inversion H; subst.
+      apply IH in E; [| exact Hok' | exact Hs | exact Hobj]. destruct c as [i0 d df dy]. inversion H; subst.
       apply wf_cfg_data. apply wf_cfg_data in Hw. apply wf_data_dset; [exact Hw|]. unfold wf_slot. rewrite Ef. exact E.
     - destruct (fget F k fs) as [[f|dyn' vs' fs'|req vs' fs']|] eqn:Ef; try (inversion H; subst; exact Hw).
       destruct (dget k (c_data c)) as [[v|sub|l]|] eqn:Eg; try (inversion H; subst; exact Hw).
@@ -403,7 +463,7 @@ Section WF.
       destruct (at_path ps w (path_index (path_join pre k) (N.of_nat i)) it false vs' fs' o) as [[w1 it'] o1] eqn:E.
       assert (Hok' : ok_fields fs') by (apply (ok_node_list req vs'); eapply ok_fields_get; eauto).
       pose proof (wf_cfg_get _ _ _ _ Hw Eg) as Hl. unfold wf_slot in Hl. rewrite Ef in Hl. apply wf_val_list in Hl.
-      apply IH in E; auto; [|eapply wf_items_nth; eauto]. destruct c as [i0 d df dy]. inversion H; subst.
+      apply IH in E; [| exact Hok' | eapply wf_items_nth; eauto | exact Hobj]. destruct c as [i0 d df dy]. inversion H; subst.
       apply wf_cfg_data. apply wf_cfg_data in Hw. apply wf_data_dset; [exact Hw|]. unfold wf_slot. rewrite Ef.
       apply wf_val_list. apply wf_items_set_nth; assumption.
   Qed.
@@ -414,13 +474,121 @@ Section WF.
     | [] => c
     | (ps, o) :: r => let '(w1, c1, _) := at_path ps w [] c dyn vs fs o in run r w1 c1 dyn vs fs
     end.
-  Theorem run_wf : forall ops w c dyn vs fs, ok_fields fs -> wf_cfg fs c -> wf_cfg fs (run ops w c dyn vs fs).
+  Definition objs_ok (fs : list (str * node F)) (ops : list (list pstep * cop)) : Prop :=
+    Forall (fun po => obj_ok fs (fst po) (snd po)) ops.
+  Theorem run_wf : forall ops w c dyn vs fs, ok_fields fs -> wf_cfg fs c -> objs_ok fs ops -> wf_cfg fs (run ops w c dyn vs fs).
   Proof.
-    induction ops as [|[ps o] ops IH]; intros w c dyn vs fs Hok Hw; cbn [run]; [exact Hw|].
-    destruct (at_path ps w [] c dyn vs fs o) as [[w1 c1] o1] eqn:E. apply IH; [exact Hok|]. eapply step_wf; eauto.
+    induction ops as [|[ps o] ops IH]; intros w c dyn vs fs Hok Hw Hobj; cbn [run]; [exact Hw|].
+    inversion Hobj; subst. cbn [fst snd] in *.
+    destruct (at_path ps w [] c dyn vs fs o) as [[w1 c1] o1] eqn:E. apply IH; [exact Hok| |assumption]. eapply step_wf; eauto.
   Qed.
-  Theorem reachable_wf : forall ops w dyn vs fs, ok_fields fs -> wf_cfg fs (run ops (fst (build_cfg w fs)) (snd (build_cfg w fs)) dyn vs fs).
-  Proof. intros. apply run_wf; [assumption | apply build_cfg_wf; assumption]. Qed.
+  Theorem reachable_wf : forall ops w dyn vs fs, ok_fields fs -> objs_ok fs ops ->
+    wf_cfg fs (run ops (fst (build_cfg w fs)) (snd (build_cfg w fs)) dyn vs fs).
+  Proof. intros. apply run_wf; [assumption | apply build_cfg_wf; assumption | assumption]. Qed.
+  (* histories without configuration objects need no side condition at all *)
+  Lemma plain_objs_ok : forall fs ops, forallb (fun po => plain_op (snd po)) ops = true -> objs_ok fs ops.
+  Proof.
+    intros fs ops H. unfold objs_ok. apply Forall_forall. intros [ps o] Hin. rewrite forallb_forall in H.
+    apply plain_obj_ok. exact (H _ Hin).
+  Qed.
+
+  (* ---- objects built by the model itself (Config.detached / resolve / at_path_x): the side condition is a static
+     matter -- the object was built from the schema of the slot it is handed to ---- *)
+  Notation run_detached := (run_detached F lvalidate lto_python ldefault lcallable lflag vrun).
+  Notation detached := (detached F lvalidate lto_python ldefault lcallable lflag vrun).
+  Notation resolve := (resolve F lvalidate lto_python ldefault lcallable lflag vrun).
+  Notation at_path_x := (at_path_x F lvalidate lto_python ldefault lcallable lflag vrun).
+
+  Lemma run_detached_wf : forall dops w c sdyn svs sfs, ok_fields sfs -> wf_cfg sfs c -> objs_ok sfs dops ->
+    wf_cfg sfs (snd (run_detached dops w c sdyn svs sfs)).
+  Proof.
+    induction dops as [|[ps o] dops IH]; intros w c sdyn svs sfs Hok Hw Hobj; cbn [Config.run_detached]; [exact Hw|].
+    inversion Hobj; subst. cbn [fst snd] in *.
+    destruct (at_path ps w [] c sdyn svs sfs o) as [[w1 c1] o1] eqn:E. apply IH; [exact Hok| |assumption]. eapply step_wf; eauto.
+  Qed.
+  (* closure: whatever is done to a freshly built configuration, the result is well-formed for its own schema *)
+  Theorem detached_wf : forall w sdyn svs sfs dops, ok_fields sfs -> objs_ok sfs dops ->
+    wf_cfg sfs (snd (detached w sdyn svs sfs dops)).
+  Proof.
+    intros w sdyn svs sfs dops Hok Hobj. unfold Config.detached. destruct (build_cfg w sfs) as [w1 c0] eqn:Eb.
+    apply run_detached_wf; [exact Hok | | exact Hobj]. pose proof (build_cfg_wf sfs w Hok) as Hb. rewrite Eb in Hb. exact Hb.
+  Qed.
+
+  Lemma fields_at_ok : forall ps fs fs1, ok_fields fs -> fields_at ps fs = Some fs1 -> ok_fields fs1.
+  Proof.
+    induction ps as [|[k|k i] ps IH]; intros fs fs1 Hok H; cbn [fields_at] in H.
+    - inversion H; subst. exact Hok.
+    - destruct (fget F k fs) as [[f|d' vs' fs'|r' vs' fs']|] eqn:Ef; try discriminate.
+      eapply IH; [|exact H]. apply (ok_node_sub d' vs'). eapply ok_fields_get; eauto.
+    - destruct (fget F k fs) as [[f|d' vs' fs'|r' vs' fs']|] eqn:Ef; try discriminate.
+      eapply IH; [|exact H]. apply (ok_node_list r' vs'). eapply ok_fields_get; eauto.
+  Qed.
+
+  (* the fields an object must fit, by route: a sub-configuration slot for an assignment, the item schema for the list routes *)
+  Definition slot_fields (fs1 : list (str * node F)) (r : objroute) (k : str) : option (list (str * node F)) :=
+    match r, fget F k fs1 with
+    | RSet, Some (NSub _ _ fs') => Some fs'
+    | RAppend, Some (NCfgList _ _ fs') | RSetIdx _, Some (NCfgList _ _ fs') | RInsert _, Some (NCfgList _ _ fs') => Some fs'
+    | _, _ => None
+    end.
+  (* static side condition on an extended operation: a side-built object that reaches a sub-configuration slot or a list
+     of configurations was built from that slot's own fields (objects built from another schema -- which the code accepts
+     unchecked -- are outside what C01 can promise), and the operations applied to it on the side hand over no
+     further objects of unknown origin *)
+  Definition xobj_ok (fs : list (str * node F)) (ps : list pstep) (x : xop F) : Prop :=
+    match x with
+    | XOp o => obj_ok fs ps o
+    | XObj r k sdyn svs sfs dops =>
+        objs_ok sfs dops /\
+        match fields_at ps fs with
+        | Some fs1 => match slot_fields fs1 r k with Some fs' => sfs = fs' | None => True end
+        | None => True
+        end
+    end.
+
+  Theorem resolve_obj_ok : forall fs ps x w, ok_fields fs -> xobj_ok fs ps x -> obj_ok fs ps (snd (resolve w x)).
+  Proof.
+    intros fs ps x w Hok Hx. destruct x as [o|r k sdyn svs sfs dops]; cbn [Config.resolve xobj_ok] in *.
+    - exact Hx.
+    - destruct Hx as [Hd Hs]. destruct (detached w sdyn svs sfs dops) as [w1 src] eqn:Ed. cbn [snd].
+      unfold obj_ok. destruct (fields_at ps fs) as [fs1|] eqn:Ea; [|exact I].
+      pose proof (fields_at_ok ps fs fs1 Hok Ea) as Hok1.
+      assert (Hwf : forall fs', slot_fields fs1 r k = Some fs' -> wf_cfg fs' src).
+      { intros fs' Hsl. rewrite Hsl in Hs. subst sfs.
+        assert (Hok' : ok_fields fs').
+        { unfold slot_fields in Hsl. destruct r; destruct (fget F k fs1) as [[f|d' vs' f'|r' vs' f']|] eqn:Ef; try discriminate;
+            inversion Hsl; subst;
+            first [ apply (ok_node_sub d' vs'); eapply ok_fields_get; eauto | apply (ok_node_list r' vs'); eapply ok_fields_get; eauto ]. }
+        pose proof (detached_wf w sdyn svs fs' dops Hok' Hd) as Hdw. rewrite Ed in Hdw. exact Hdw. }
+      unfold slot_fields in Hwf.
+      destruct r; cbn [obj_cop obj_ok_at]; destruct (fget F k fs1) as [[f|d' vs' f'|r' vs' f']|]; try exact I; apply Hwf; reflexivity.
+  Qed.
+
+  Theorem step_x_wf : forall ps x w pre c dyn vs fs w' c' oc1,
+    ok_fields fs -> wf_cfg fs c -> xobj_ok fs ps x -> at_path_x ps w pre c dyn vs fs x = (w', c', oc1) -> wf_cfg fs c'.
+  Proof.
+    intros ps x w pre c dyn vs fs w' c' oc1 Hok Hw Hx H. unfold Config.at_path_x in H.
+    pose proof (resolve_obj_ok fs ps x w Hok Hx) as Ho. destruct (resolve w x) as [w1 o]. cbn [snd] in Ho.
+    eapply step_wf; eauto.
+  Qed.
+
+  Fixpoint run_x (ops : list (list pstep * xop F)) (w : world) (c : cfg) (dyn : bool) (vs : list N) (fs : list (str * node F)) : cfg :=
+    match ops with
+    | [] => c
+    | (ps, x) :: r => let '(w1, c1, _) := at_path_x ps w [] c dyn vs fs x in run_x r w1 c1 dyn vs fs
+    end.
+  Definition xobjs_ok (fs : list (str * node F)) (ops : list (list pstep * xop F)) : Prop :=
+    Forall (fun px => xobj_ok fs (fst px) (snd px)) ops.
+  Theorem run_x_wf : forall ops w c dyn vs fs, ok_fields fs -> wf_cfg fs c -> xobjs_ok fs ops -> wf_cfg fs (run_x ops w c dyn vs fs).
+  Proof.
+    induction ops as [|[ps x] ops IH]; intros w c dyn vs fs Hok Hw Hobj; cbn [run_x]; [exact Hw|].
+    inversion Hobj; subst. cbn [fst snd] in *.
+    destruct (at_path_x ps w [] c dyn vs fs x) as [[w1 c1] o1] eqn:E. apply IH; [exact Hok| |assumption]. eapply step_x_wf; eauto.
+  Qed.
+  (* C01 over histories that build configuration objects on the side and hand them over: every reachable state is well-formed *)
+  Theorem reachable_x_wf : forall ops w dyn vs fs, ok_fields fs -> xobjs_ok fs ops ->
+    wf_cfg fs (run_x ops (fst (build_cfg w fs)) (snd (build_cfg w fs)) dyn vs fs).
+  Proof. intros. apply run_x_wf; [assumption | apply build_cfg_wf; assumption | assumption]. Qed.
 
   (* reading a leaf right after an accepted assignment yields the field's normalised form of the assigned value *)
   Theorem set_get : forall x w pre c fs dyn k rl w' c' f,
